@@ -49,7 +49,11 @@ EXPLANATION = ("Theorems (Props/C09.lean): symbol tables (symbol_roundtrip, symb
                "continuous row (phylip_continuous_line_roundtrip_partial: one line, the whole continuous PHYLIP file is not modelled); NeXML otus references (nexml_links_resolve); custom alphabets through "
                "FORMAT and _build_state_alphabet (format_standard_alphabet_roundtrip); whole-file PHYLIP: relaxed for labels written "
                "without blanks under every underscore option pair (phylip_relaxed_roundtrip), relaxed with multispace delimiter for labels with "
-               "single inner blanks (phylip_multispace_roundtrip), strict (phylip_strict_roundtrip); whole-file FASTA with wrapping "
+               "single inner blanks (phylip_multispace_roundtrip), strict (phylip_strict_roundtrip), INTERLEAVED in blocks of any widths with labels on the first block only "
+               "(phylip_interleaved_read, with ph_first_page / ph_page_fold / ph_pages_fold: every row reads as the concatenation of its chunks "
+               "and the file is accepted iff every row then has exactly NCHAR characters - phRead now models that final check of "
+               "PhylipReader._read, so an incomplete last block is refused; the closed form 'chunks of widths summing to NCHAR give back the rows' "
+               "is evaluated on examples, not proved in general); whole-file FASTA with wrapping "
                "(fasta_roundtrip); NeXML columns for ANY injective column-id scheme, ragged matrices included (nexml_matrix_columns_any_ids; "
                "nexml_matrix_columns is the identity-id instance, nexml_columns_partial the row lemma with the id property as hypothesis); "
                "TITLE/LINK: de-duplication by the key upper-case + underscore-as-blank (assignTitles_distinct), resolution of raw titles "
@@ -57,8 +61,8 @@ EXPLANATION = ("Theorems (Props/C09.lean): symbol tables (symbol_roundtrip, symb
                "preserve_underscores for arbitrary labels (title_link_resolves_escaped, via tkey_readToken); title_token_roundtrip: default "
                "options give the label back exactly; bridge_* tie the regenerated kernels to the model; conversion chains as compositions "
                "of the above for symbol-only rows (convert_*). Whole-file theorems assume at least one row and rows of one positive length. "
-               "Correspondence/oracle only: rows in another order than TAXLABELS, MATCHCHAR combined with interleaving, PHYLIP interleaved "
-               "paging, whole continuous PHYLIP / NeXML matrices, interleaved continuous NEXUS and float formatting, NeXML XML text, tree lists, construction routes "
+               "Correspondence/oracle only: rows in another order than TAXLABELS, MATCHCHAR combined with interleaving, strict-label PHYLIP interleaved, "
+               "whole continuous PHYLIP / NeXML matrices, interleaved continuous NEXUS and float formatting, NeXML XML text, tree lists, construction routes "
                "(from_dict/concatenate/export), lower-case custom symbols. format_standard_roundtrip_partial / phylip_*_line_roundtrip_partial / "
                "fasta_wrap_roundtrip_partial are fragments kept beside the full statements named above.")
 
